@@ -22,6 +22,47 @@ func funcsOf(prog *load.Program, visit func(pkgPath string, info *types.Info, fd
 					fn, _ := pk.TypesInfo.Defs[fd.Name].(*types.Func)
 					visit(pk.PkgPath, pk.TypesInfo, fd, fn)
 				}
+				// function literals in package-level initialisers (the template's FuncMap ...) are code too
+				gd, ok := d.(*ast.GenDecl)
+				if !ok || gd.Tok != token.VAR {
+					continue
+				}
+				for _, sp := range gd.Specs {
+					vs := sp.(*ast.ValueSpec)
+					for vi, val := range vs.Values {
+						owner := "_"
+						if vi < len(vs.Names) {
+							owner = vs.Names[vi].Name
+						}
+						nlit := 0
+						var walk func(n ast.Node, label string)
+						walk = func(n ast.Node, label string) {
+							ast.Inspect(n, func(x ast.Node) bool {
+								switch x := x.(type) {
+								case *ast.KeyValueExpr:
+									l := label
+									if tv, ok := pk.TypesInfo.Types[x.Key]; ok && tv.Value != nil {
+										l = strings.Trim(tv.Value.ExactString(), "\"")
+									}
+									walk(x.Value, l)
+									return false
+								case *ast.FuncLit:
+									nlit++
+									name := owner + "·" + label
+									if label == "" {
+										name = fmt.Sprintf("%s·func%d", owner, nlit)
+									}
+									sig, _ := pk.TypesInfo.TypeOf(x).(*types.Signature)
+									fn := types.NewFunc(x.Pos(), pk.Types, name, sig)
+									visit(pk.PkgPath, pk.TypesInfo, &ast.FuncDecl{Name: ast.NewIdent(name), Type: x.Type, Body: x.Body}, fn)
+									return false
+								}
+								return true
+							})
+						}
+						walk(val, "")
+					}
+				}
 			}
 		}
 	}
@@ -313,6 +354,36 @@ func CheckNoGlobalWrites(run *core.Run, prog *load.Program, rule string) {
 				if v, ok := isGlobal(s.X); ok {
 					n++
 					run.Check(rule, fname+"→"+v.Name(), prog.Pos(s.Pos()), false, fmt.Sprintf("%s modifies the package-level variable %s", fname, v.Name()))
+				}
+			case *ast.CallExpr:
+				// a method called on a package-level variable that can change it: a pointer-receiver
+				// method on an addressable (non-pointer) variable, or any method of a sync / sync/atomic type
+				sel, ok := ast.Unparen(s.Fun).(*ast.SelectorExpr)
+				if !ok {
+					break
+				}
+				si, ok := info.Selections[sel]
+				if !ok || si.Kind() != types.MethodVal {
+					break
+				}
+				v, ok := isGlobal(sel.X)
+				if !ok {
+					break
+				}
+				m, _ := si.Obj().(*types.Func)
+				if m == nil {
+					break
+				}
+				sig, _ := m.Type().(*types.Signature)
+				ptrRecv := false
+				if sig != nil && sig.Recv() != nil {
+					_, ptrRecv = sig.Recv().Type().(*types.Pointer)
+				}
+				_, varIsPtr := info.TypeOf(sel.X).Underlying().(*types.Pointer)
+				syncType := m.Pkg() != nil && (m.Pkg().Path() == "sync" || m.Pkg().Path() == "sync/atomic")
+				if (ptrRecv && !varIsPtr) || syncType {
+					n++
+					run.Check(rule, fname+"→"+v.Name()+"."+m.Name(), prog.Pos(s.Pos()), false, fmt.Sprintf("%s calls %s on the package-level variable %s, which can modify it: state (a cache, a counter, a pool) survives between mocks and between generator instances, so what is generated depends on what was generated before", fname, m.Name(), v.Name()))
 				}
 			case *ast.UnaryExpr:
 				if s.Op == token.AND {
